@@ -1279,7 +1279,13 @@ impl Permission {
             None => vec![PermissionKind::Read],
         };
         let keys = match permision.next() {
-            Some(keys) => keys.to_string().split(",").map(|s| s.to_string()).collect(),
+            // An entry without key patterns is stored as "<kinds> " (see Display): the empty piece is no pattern
+            Some(keys) => keys
+                .to_string()
+                .split(",")
+                .filter(|s| !s.is_empty())
+                .map(|s| s.to_string())
+                .collect(),
             None => vec![],
         };
         Permission { kinds, keys }
